@@ -25,8 +25,8 @@ LEVEL = "fault_enumeration"
 DESIGN_REF = "4.16"
 RULE = (
     "cases = transport kind (plain fake whose connect/disconnect yield to the loop, plain fake whose connect/disconnect never suspend / StreamTransport on in-memory streams / MQTTClient on a fake aiomqtt client built around aiomqtt's "
-    "real message iterator) x fault (none, connect raises, a hanging connect abandoned by a timeout, body raises, disconnect raises, body+disconnect) x initial file (missing, empty, "
-    "generated registry) x body script: mutate the registry (add a node, or change the loaded nodes in place as the message handlers do), then leave the context after k loop iterations (k=0..12: saver not started, inside "
+    "real message iterator) x fault (none, connect raises, a hanging connect abandoned by a timeout, body raises, the body task really cancelled, disconnect raises, body+disconnect) x initial file (missing, empty, "
+    "generated registry, a 60-node registry) x body script: mutate the registry (add a node, or change the loaded nodes in place as the message handlers do), then leave the context after k loop iterations (k=0..12: saver not started, inside "
     "open/write/close of the first save, parked in its sleep) or let T seconds of virtual time pass (T in 1, 899, 900, 901, 1800, 5000, "
     "generated) and leave k iterations after the timer fired. Everything runs on a deterministic virtual-time event loop with an inline "
     "executor, so 15 minutes cost microseconds and a cancellation can land between any two file operations. Oracle: entry loads the file; "
@@ -43,8 +43,9 @@ ASSUMPTIONS = [
 DELETABLE = ()
 
 KINDS = ("plain", "plain-nosuspend", "stream", "mqtt")
-FAULTS = ("none", "connect", "body", "disconnect", "body+disconnect", "connect-timeout")
-FILES = ("missing", "empty", "registry")
+FAULTS = ("none", "connect", "body", "disconnect", "body+disconnect", "connect-timeout", "cancel-body")
+FILES = ("missing", "empty", "registry", "big")
+BIG_REGISTRY = {str(i): {"node_id": i, "node_type": 17, "protocol_version": "2.0", "sketch_name": f"node {i}", "sketch_version": "1", "battery_level": i % 100, "heartbeat": 0, "sleeping": False, "children": {"1": {"child_id": 1, "child_type": 6, "description": "", "values": {"0": str(i)}}}} for i in range(1, 61)}
 FILE_REGISTRY = {"3": {"node_id": 3, "node_type": 17, "protocol_version": "2.2.0", "sketch_name": "from file", "sketch_version": "1", "battery_level": 50,
                        "heartbeat": 0, "sleeping": True, "children": {"1": {"child_id": 1, "child_type": 6, "description": "t", "values": {"0": "20.5"}}}}}
 
@@ -59,6 +60,8 @@ def enumerate_cases(tier: str):
     for kind, fault, initial in itertools.product(KINDS, FAULTS, FILES):
         if kind == "plain-nosuspend" and fault == "connect-timeout":
             continue
+        if initial == "big" and (fault not in ("none", "cancel-body") or kind not in ("plain", "stream")):
+            continue
         if not kind.startswith("plain") and ("disconnect" in fault or fault == "connect-timeout"):
             continue  # the built-in transports absorb their own disconnect errors; a hanging connect is modelled on the plain kind
         for k in range(0, 13):
@@ -71,8 +74,14 @@ def enumerate_cases(tier: str):
                 yield {"kind": kind, "fault": fault, "file": initial, "k": k, "T": T, "mutate": True}
                 if fault == "none" and T in (1, 901):
                     yield {"kind": kind, "fault": fault, "file": initial, "k": k, "T": T, "mutate": True, "reenter": True}
-                if initial == "registry":
+                if initial in ("registry", "big"):
                     yield {"kind": kind, "fault": fault, "file": initial, "k": k, "T": T, "mutate": "in-place"}
+            if fault == "none":
+                for k in (4, 9, 30, 70):
+                    yield {"kind": kind, "fault": fault, "file": initial, "k": k, "T": T, "mutate": "churn"}
+        if fault == "none":
+            for k in (3, 8, 20, 45, 90, 200):
+                yield {"kind": kind, "fault": fault, "file": initial, "k": k, "T": None, "mutate": "churn"}
 
 
 def strategy(tier: str):
@@ -83,7 +92,7 @@ def strategy(tier: str):
             "file": st.sampled_from(FILES),
             "k": st.integers(0, 20),
             "T": st.one_of(st.none(), st.sampled_from((1, 899, 900, 901, 1799, 1800, 1801, 2700, 5000)), st.integers(1, 10000), st.floats(0.5, 4000.0).map(lambda x: round(x, 1))),
-            "mutate": st.sampled_from((True, False, "in-place")),
+            "mutate": st.sampled_from((True, False, "in-place", "churn")),
             "reenter": st.booleans(),
             "prefill": st.sampled_from((False, False, True)),
         }
@@ -165,6 +174,9 @@ def run_case(case: dict) -> Outcome:
     elif initial == "registry":
         with open(path, "w", encoding="utf-8") as fil:
             json.dump(FILE_REGISTRY, fil)
+    elif initial == "big":
+        with open(path, "w", encoding="utf-8") as fil:
+            json.dump(BIG_REGISTRY, fil)
     info = {"saver_busy_at_exit": False, "boundary": False}
 
     def disk() -> tuple[str, object]:
@@ -200,6 +212,8 @@ def run_case(case: dict) -> Outcome:
             async with gateway:
                 entered = True
                 loaded_now = env.snapshot(gateway.nodes)
+                if initial == "big" and {k: v for k, v in loaded_now.items() if k in BIG_REGISTRY} != BIG_REGISTRY:
+                    return fail("entry:file-not-loaded", f"registry after entry has {len(loaded_now)} nodes; the file holds 60")
                 if initial == "registry" and {k: v for k, v in loaded_now.items() if k in FILE_REGISTRY} != FILE_REGISTRY:
                     return fail("entry:file-not-loaded", f"registry after entry is {loaded_now!r}; the file holds node 3")
                 if case.get("prefill") and "21" not in loaded_now:
@@ -228,7 +242,13 @@ def run_case(case: dict) -> Outcome:
                         state, doc = disk()
                         if state != "ok" or doc != registry_doc(gateway):
                             return fail("periodic:change-not-on-disk-after-15-min", f"{loop.time() - changed_at:.0f} s after the change the file is {state} {str(doc)[:160]!r}")
-                for _ in range(k):
+                for step in range(k):
+                    if case["mutate"] == "churn":
+                        # the network keeps changing while the saver works: a node appears or disappears at every loop step
+                        if step % 3 == 2 and (200 + step - 2) in gateway.nodes:
+                            del gateway.nodes[200 + step - 2]
+                        else:
+                            gateway.nodes[200 + step] = Node(200 + step, 17, "2.0")
                     await asyncio.sleep(0)
                 state, doc = disk()
                 info["saver_busy_at_exit"] = not (state == "ok" and doc == registry_doc(gateway)) and case["mutate"] is False or (state != "ok")
@@ -236,10 +256,16 @@ def run_case(case: dict) -> Outcome:
                     # the first save may or may not have run yet: busy unless the file already holds a complete document
                     info["saver_busy_at_exit"] = state != "ok" or k < 8
                 at_exit_doc = registry_doc(gateway)
+                if fault == "cancel-body":
+                    # the application task is cancelled for real (task.cancel(), asyncio.timeout, Ctrl-C under asyncio.run)
+                    me.cancel()
+                    await asyncio.sleep(3600)
                 if "body" in fault:
                     raise BodyError("body failed")
         except BaseException as err:  # noqa: BLE001
             caught = err
+        if fault == "cancel-body" and isinstance(caught, asyncio.CancelledError):
+            me.uncancel()
         if at_exit_doc is None:
             at_exit_doc = registry_doc(gateway)
         for _ in range(3):
@@ -261,7 +287,10 @@ def run_case(case: dict) -> Outcome:
                 return fail("connect-fail:task-left", f"{where}: tasks left behind: {leftover!r}")
             return None
         # -- exception leaving the context
-        if isinstance(caught, asyncio.CancelledError):
+        if fault == "cancel-body":
+            if not isinstance(caught, asyncio.CancelledError):
+                return fail(f"exit:{phase}:cancellation-became-{type(caught).__name__}", f"{where}: the body was cancelled but {caught!r} left the context")
+        elif isinstance(caught, asyncio.CancelledError):
             return fail(f"exit:{phase}:CancelledError", f"{where}: CancelledError left 'async with' (the saver's cancellation leaked)")
         if fault == "none" and caught is not None:
             return fail(f"exit:{phase}:raised-{type(caught).__name__}", f"{where}: clean exit raised {caught!r}")
